@@ -54,6 +54,26 @@ pub mod vharness {
         pub responses: Vec<Vec<u8>>,
     }
 
+    /// grpc-message is percent-encoded on the wire
+    fn percent_decode(s: &str) -> String {
+        let b = s.as_bytes();
+        let mut out = Vec::with_capacity(b.len());
+        let mut i = 0;
+        while i < b.len() {
+            if b[i] == b'%' && i + 3 <= b.len() {
+                let hex = |c: u8| (c as char).to_digit(16);
+                if let (Some(h), Some(l)) = (hex(b[i + 1]), hex(b[i + 2])) {
+                    out.push((h * 16 + l) as u8);
+                    i += 3;
+                    continue;
+                }
+            }
+            out.push(b[i]);
+            i += 1;
+        }
+        String::from_utf8_lossy(&out).to_string()
+    }
+
     fn metric_of(m: u8) -> kyrodb_engine::config::DistanceMetric {
         match m {
             0 => kyrodb_engine::config::DistanceMetric::Cosine,
@@ -270,7 +290,7 @@ pub mod vharness {
                 responses.push(buf[p + 5..p + 5 + n].to_vec());
                 p += 5 + n;
             }
-            RpcResult { code: code.unwrap_or(-1), message, http_status, responses }
+            RpcResult { code: code.unwrap_or(-1), message: percent_decode(&message), http_status, responses }
         }
 
         pub fn quota_count(&self, tenant_id: &str) -> Option<usize> {
@@ -315,6 +335,11 @@ pub mod vharness {
             let mut v = self.state.engine.hot_tier().scan(|_| true);
             v.sort_unstable();
             v
+        }
+
+        /// Tokens currently available to a tenant in the real limiter (None: bucket not created yet / no limiter).
+        pub fn rate_tokens(&self, tenant_id: &str) -> Option<f64> {
+            self.state.rate_limiter.as_ref().and_then(|l| l.available_tokens(tenant_id))
         }
 
         pub fn engine(&self) -> &Arc<TieredEngine> {
